@@ -237,16 +237,25 @@ Lemma safe_components st pkg ctx rp path : path <> [] ->
   forall c, In c (pn_name (context_ref_name_safe st pkg ctx rp path)) -> In c (rp ++ path).
 Proof.
   intros Hne c. unfold context_ref_name_safe. destruct (qname_eqb pkg rp).
-  - cbv zeta. destruct (capture_same _ _ _ _ _); cbn [pn_name]; [auto|].
+  - cbv zeta. destruct (capture_same _ _ _ _ _ || is_statement_keyword _)%bool; cbn [pn_name]; [auto|].
     destruct (strip_common_spec ctx path Hne) as (common & rest & E & _ & _).
     intro Hc. apply in_or_app. right. rewrite E. apply in_or_app. right. exact Hc.
-  - destruct (capture_other _ _ _ _); cbn [pn_name]; auto.
+  - destruct (capture_other _ _ _ _ || is_statement_keyword _)%bool; cbn [pn_name]; auto.
 Qed.
 
 (* ------------------------------------------------------------------ type references *)
-Definition kw_free (c : ident) : Prop :=
-  is_scalar_kind c = false /\ ident_eqb c kw_repeated = false /\ ident_eqb c kw_optional = false
-  /\ ident_eqb c kw_option = false.
+(* the scalar type names and the words the file parser dispatches on are statement keywords: a relative
+   printed name never starts with one (fix 5e02f98) *)
+Lemma scalar_kind_is_keyword k : is_scalar_kind k = true -> is_statement_keyword k = true.
+Proof.
+  unfold is_scalar_kind. intro H. apply existsb_exists in H as (s & Hin & E). apply ident_eqb_eq in E. subst s.
+  unfold sk_names in Hin. repeat (destruct Hin as [<-|Hin]; [vm_compute; reflexivity|]). destruct Hin.
+Qed.
+
+Lemma dispatch_word_is_keyword a :
+  ident_eqb a kw_repeated = true \/ ident_eqb a kw_optional = true \/ ident_eqb a kw_option = true ->
+  is_statement_keyword a = true.
+Proof. intros [H|[H|H]]; apply ident_eqb_eq in H; subst a; vm_compute; reflexivity. Qed.
 
 (* a full name stands for one (package, path) entry only *)
 Definition flat_unique (x : xsymtab) : Prop :=
@@ -262,8 +271,7 @@ Qed.
 
 (* the referenced type is in the table under its (package, path) *)
 Definition wf_tref (x : xsymtab) (pkg rp path : qname) : Prop :=
-  path <> [] /\ wf_target (to_symtab x) pkg rp path /\ In (rp, path) (x_types x)
-  /\ Forall kw_free (rp ++ path).
+  path <> [] /\ wf_target (to_symtab x) pkg rp path /\ In (rp, path) (x_types x).
 
 Definition wf_dvt (x : xsymtab) (pkg : qname) (t : dvt) : Prop :=
   match t with DScalar k => is_scalar_kind k = true | DRef rp path => wf_tref x pkg rp path end.
@@ -277,9 +285,12 @@ Definition wf_dtype (x : xsymtab) (pkg : qname) (fname : ident) (t : dtype) : Pr
 Lemma interp_ref_lay x st pkg ctx rp path : same_tab st (to_symtab x) -> flat_unique x -> wf_tref x pkg rp path ->
   interp_ref x pkg ctx (context_ref_name_safe st pkg ctx rp path) = Some (rp, path).
 Proof.
-  intros Hs Hu (Hne & Ht & Hl & _). unfold interp_ref. rewrite (crn_safe_same st _ pkg ctx rp path Hs).
+  intros Hs Hu (Hne & Ht & Hl). unfold interp_ref. rewrite (crn_safe_same st _ pkg ctx rp path Hs).
   rewrite (scope_lemma_full _ pkg ctx rp path Hne Ht). exact (lookup_unique x (rp, path) Hu Hl).
 Qed.
+
+Lemma wf_target_pkg st pkg rp path : wf_target st pkg rp path -> qname_eqb pkg rp = false -> rp <> [].
+Proof. intros [_ H] E. exact (proj1 (H E)). Qed.
 
 Lemma interp_vt_lay x st pkg ctx t : same_tab st (to_symtab x) -> flat_unique x -> wf_dvt x pkg t ->
   interp_vt x pkg ctx (lay_vt st pkg ctx t) = Some t.
@@ -287,17 +298,19 @@ Proof.
   intros Hs Hu Hw. destruct t as [k|rp path].
   - cbn [wf_dvt] in Hw. cbn [lay_vt]. unfold interp_vt, scalar_pn. rewrite Hw. reflexivity.
   - cbn [wf_dvt lay_vt] in *. pose proof (interp_ref_lay x st pkg ctx rp path Hs Hu Hw) as Hr.
-    destruct Hw as (Hne & _ & _ & Hk). pose proof (safe_components st pkg ctx rp path Hne) as Hc.
+    destruct Hw as (Hne & Ht & _).
+    pose proof (safe_head_not_keyword st pkg ctx rp path (wf_target_pkg _ pkg rp path Ht)) as Hk.
     unfold interp_ref in Hr. unfold interp_vt.
-    destruct (context_ref_name_safe st pkg ctx rp path) as [abs nm] eqn:E. cbn [pn_name] in Hc.
+    destruct (context_ref_name_safe st pkg ctx rp path) as [abs nm] eqn:E. cbn [pn_abs pn_name] in Hk.
     assert (G : match resolve_printed (to_symtab x) pkg ctx {| pn_abs := abs; pn_name := nm |} with
                 | Some full => match lookup_type x full with Some e => Some (DRef (fst e) (snd e)) | None => None end
                 | None => None end = Some (DRef rp path)).
     { destruct (resolve_printed (to_symtab x) pkg ctx {| pn_abs := abs; pn_name := nm |}) as [full|]; [|discriminate Hr].
       rewrite Hr. reflexivity. }
     destruct abs; [exact G|]. destruct nm as [|k [|k2 q]]; try exact G.
-    assert (Hf : kw_free k). { rewrite Forall_forall in Hk. apply Hk. apply Hc. left; reflexivity. }
-    destruct Hf as (Hsk & _). rewrite Hsk. exact G.
+    specialize (Hk eq_refl). cbn [hd] in Hk.
+    destruct (is_scalar_kind k) eqn:Esk; [|exact G].
+    rewrite (scalar_kind_is_keyword k Esk) in Hk. discriminate.
 Qed.
 
 Lemma interp_type_lay x st pkg ctx fname t : same_tab st (to_symtab x) -> flat_unique x -> wf_dtype x pkg fname t ->
@@ -328,12 +341,18 @@ Lemma lay_vt_head_ok st pkg ctx x t : wf_dvt x pkg t -> head_ok (lay_vt st pkg c
 Proof.
   destruct t as [k|rp path]; intro Hw; unfold head_ok.
   - right. cbn. apply scalar_kind_not_kw. exact Hw.
-  - cbn [lay_vt]. destruct Hw as (Hne & _ & _ & Hk).
-    pose proof (safe_components st pkg ctx rp path Hne) as Hc. pose proof (safe_never_empty st pkg ctx rp path Hne) as Hn.
+  - cbn [lay_vt]. destruct Hw as (Hne & Ht & _).
+    pose proof (safe_head_not_keyword st pkg ctx rp path (wf_target_pkg _ pkg rp path Ht)) as Hk.
+    pose proof (safe_never_empty st pkg ctx rp path Hne) as Hn.
     destruct (context_ref_name_safe st pkg ctx rp path) as [abs nm]. cbn [pn_abs pn_name] in *.
     destruct abs; [left; reflexivity|right]. destruct nm as [|a q]; [contradiction|].
-    assert (Hf : kw_free a). { rewrite Forall_forall in Hk. apply Hk. apply Hc. left; reflexivity. }
-    destruct Hf as (_ & H1 & H2 & H3). auto.
+    specialize (Hk eq_refl). cbn [hd] in Hk.
+    assert (G : forall w, ident_eqb a w = true -> is_statement_keyword w = true -> False).
+    { intros w Ew Hkw. apply ident_eqb_eq in Ew. subst w. rewrite Hkw in Hk. discriminate. }
+    repeat split.
+    + destruct (ident_eqb a kw_repeated) eqn:E1; [exfalso; apply (G kw_repeated E1); vm_compute; reflexivity|reflexivity].
+    + destruct (ident_eqb a kw_optional) eqn:E1; [exfalso; apply (G kw_optional E1); vm_compute; reflexivity|reflexivity].
+    + destruct (ident_eqb a kw_option) eqn:E1; [exfalso; apply (G kw_option E1); vm_compute; reflexivity|reflexivity].
 Qed.
 
 Lemma lay_type_wf st pkg ctx x fname t : wf_dtype x pkg fname t -> wf_stype (lay_type st pkg ctx t).
